@@ -73,9 +73,12 @@ class RecEst(BaseEstimator, ClassifierMixin):
             self.seen_ = {int(round(i)): (1.0 if lab > 0.5 else -1.0) for i, lab in zip(X[:, 0], y)}
         if self.kind == "order":      # sensitive to the ORDER in which the training rows arrive
             self.w_ = int(sum((j + 1) * int(round(i)) for j, i in enumerate(X[:, 0]))) % 5
+        with _LOCK:
+            _NEXT[0] += 1
+            self.fit_serial_ = _NEXT[0]          # identifies the state this estimator OBJECT now holds
         rec = _REC.get(self.token)
         if rec is not None:
-            rec.emit("est_fit", [int(round(v)) for v in X[:, 0]], [int(round(v)) for v in y])
+            rec.emit("est_fit", [int(round(v)) for v in X[:, 0]], [int(round(v)) for v in y], self.fit_serial_)
         return self
 
     def _raw(self, X):
@@ -134,7 +137,9 @@ class RModel(mokapot.Model):
         raw = super().predict(psms)
         rec = _REC.get(self.token)
         if rec is not None:
-            rec.emit("pred", int(self.fold), self._ids(psms), [float(v) for v in np.asarray(raw)])
+            # ... and which fitted state the estimator object attached to THIS fold model holds while it scores
+            rec.emit("pred", int(self.fold), self._ids(psms), [float(v) for v in np.asarray(raw)],
+                     int(getattr(self.estimator, "fit_serial_", 0) or 0), id(self.estimator))
         return raw
 
 
@@ -237,6 +242,8 @@ def run_brew(case, workdir=None, keep=False):
                 for c, fl in enumerate(case["files"]) for r in fl["rows"]]
         file_of = {r["id"]: r["file"] for r in rows}
         fits, preds, trainsets = [], [], []
+        est_train = {ev[3]: ev[1] for ev in rec.events if ev[0] == "est_fit" and len(ev) > 3}
+        est_no = {}
         for ev in rec.events:
             if ev[0] == "train_set":
                 trainsets.append(ev[1])
@@ -248,7 +255,11 @@ def run_brew(case, workdir=None, keep=False):
                 ints = [int(round(v)) for v in raw]
                 okint = all(abs(v - i) < 1e-9 for v, i in zip(raw, ints))
                 preds.append({"model": ev[1], "file": file_of.get(ids[0], 0) if ids else 0, "ids": ids,
-                              "raw": ints if okint else [0] * len(ids), "raw_int": bool(okint)})
+                              "raw": ints if okint else [0] * len(ids), "raw_int": bool(okint),
+                              # rows the scoring estimator OBJECT was last fitted on (empty: not a recording estimator)
+                              "est_train": list(est_train.get(ev[4], [])) if len(ev) > 4 else [],
+                              # identity of that estimator object, as a small number
+                              "est": est_no.setdefault(ev[5], len(est_no) + 1) if len(ev) > 5 else 0})
         scores = []
         trained = False
         if ret is not None:
